@@ -56,8 +56,8 @@ Definition rs_get (n : N) (s : rstore) : option hdr :=
 (** ** syncStore.Append's shim: the decision taken after loading the cached head *)
 Inductive shim_res :=
 | ShimEmpty                 (* len(headers) == 0: return nil *)
-| ShimSkip                  (* headers[0].Height() < head.Height(): no check, cache untouched, straight to Store.Append *)
-| ShimOk (nh : hdr)         (* every header is the rolling head again or adjacent to it: cache := nh, then Store.Append *)
+| ShimSkip                  (* every header is below the head: no check, cache untouched, straight to Store.Append *)
+| ShimOk (nh : hdr)         (* past the leading headers below the head, every header is the rolling head again or adjacent to it: cache := nh, then Store.Append *)
 | ShimNonAdj.               (* errNonAdjacent, nothing written *)
 
 (** the loop over the headers with the rolling [head]: a header that IS the
@@ -70,13 +70,22 @@ Fixpoint shim_walk (cur : hdr) (hs : list hdr) : option hdr :=
     else if h_height h =? wrap64 (h_height cur + 1) then shim_walk h r else None
   end.
 
+(** since /repo 7d16f07: only the leading headers BELOW the head are left
+    unchecked; the walk applies to the rest of the list *)
+Fixpoint drop_below (c : hdr) (hs : list hdr) : list hdr :=
+  match hs with
+  | [] => []
+  | h :: r => if h_height h <? h_height c then drop_below c r else hs
+  end.
+
 Definition shim_check (c : hdr) (hs : list hdr) : shim_res :=
   match hs with
   | [] => ShimEmpty
-  | h0 :: _ =>
-    if h_height c <=? h_height h0
-    then match shim_walk c hs with Some nh => ShimOk nh | None => ShimNonAdj end
-    else ShimSkip
+  | _ :: _ =>
+    match drop_below c hs with
+    | [] => ShimSkip
+    | rest => match shim_walk c rest with Some nh => ShimOk nh | None => ShimNonAdj end
+    end
   end.
 
 (** ** sync State *)
